@@ -7,7 +7,7 @@ every shape are imposed on the real regclient.ImageCopy through the gates of the
 the target is observed after every write and every observed state is judged by TLC against the C04
 obligations of (P) spec/CopyProp.tla.  See design.d/C03-C04-C14.md.
 """
-import copy_common as cc
+from props import copy_common as cc
 import vlib
 
 
@@ -26,10 +26,10 @@ def run(ctx):
     runs = [("ImageCopyMC", "C04_mc_quick.cfg", "img, two registries, 1 fault + cancel, full interleaving", {}),
             ("ImageCopyMC", "C04_mc_layout.cfg", "img, layout target, 1 fault + cancel, repaired wait loop", {})]
     if th:
-        runs += [("ImageCopyMC", "C04_mc_t1.cfg", "img, registry pairings, mount on/off, corner targets, 1 fault + cancel", {"timeout": 3000}),
-                 ("ImageCopyMC", "C04_mc_t2.cfg", "img, two registries, 2 faults + cancel", {"timeout": 3000}),
-                 ("ImageCopyMC", "C04_mc_t3.cfg", "schema1 / inline / digest tag, options, 1 fault + cancel", {"timeout": 3000}),
-                 ("ImageCopyMC", "C04_mc_t4.cfg", "layout targets, repaired wait loop, 1 fault + cancel", {"timeout": 3000})]
+        runs += [("ImageCopyMC", "C04_mc_t1.cfg", "img, 3 registry-target pairings, mount on/off, 1 fault + cancel", {"timeout": 3000}),
+                 ("ImageCopyMC", "C04_mc_t2.cfg", "schema1, corner targets, mount on/off, 2 faults + cancel", {"timeout": 3000}),
+                 ("ImageCopyMC", "C04_mc_t3.cfg", "schema1 / inline / empty, default + force-recursive, 1 fault + cancel", {"timeout": 3000}),
+                 ("ImageCopyMC", "C04_mc_t4.cfg", "layout targets, corner targets, repaired wait loop, 1 fault + cancel", {"timeout": 3000})]
     mc, states, trans = cc.run_mc(ctx, runs)
     defect = cc.defect_model_run(ctx)
 
@@ -54,14 +54,20 @@ def run(ctx):
             lambda s: (s["shape"], (s.get("death") or {}).get("class")),
             lambda s: tuple(f["kind"] for f in s.get("faults") or [])]
     sw = cc.cover_sample(rng, sw, 12000 if th else 900, keyf)
+    # the scenario that shows findings/C04-1 reliably (a class that has produced a violation stays in every tier)
+    demo = e.scn("big", "reg2dir", "c04-1-demo", mode="script", cancel_cb={"n": "LB", "occ": 2},
+                 script=[{"op": "rel", "host": "src", "class": "manifest_get", "n": "S"},
+                         {"op": "rel", "host": "src", "class": "blob_get", "n": "L2"}, {"op": "settle"},
+                         {"op": "rel", "host": "src", "class": "blob_get", "n": "LB"}, {"op": "settle"}])
     scns = scripts + sw
-    scns, dropped = cc.limit_defect_prone(rng, scns, 60 if th else 14)
-    res = bres + e.run(scns, "faults")
+    scns, dropped = cc.limit_defect_prone(rng, scns, 2500 if th else 300)
+    res = bres + e.run(scns + [demo], "faults")
 
     # 3. validation against (P)
     acc, rej = e.validate(res, "C04", max_reports=40)
 
     # 4. binding demo
+    e.check_stalls()
     demos = e.binding_demo(res) if not ctx.violations else []
 
     cov = cc.summarize(res)
